@@ -62,9 +62,14 @@ def standard_scripts(big=True):
         for e in ("fin", "never"):
             S.append(script("st%d-%s" % (st, e), ("%d meta text" % st).encode(), True, "ok", st, True, "none", b"BODY!", True, e))
     for st, hb in ((5, b"05 low"), (70, b"70 high"), (99, b"99 high"), (9, b"9 one digit"), (100, b"100 three")):
-        S.append(script("range%d" % st, hb, True, "ok", st, True, "none", b"BODY!", True, "fin"))
+        # a status is two digits: one or three digits are not a status at all
+        S.append(script("range%d" % st, hb, True, "ok" if len(hb.split(b" ")[0]) == 2 else "badStatus", st, True, "none", b"BODY!", True, "fin"))
     S.append(script("nondigit", b"2x text/gemini", True, "badStatus", 20, True, "none", b"BODY!", True, "fin"))
     S.append(script("nostatus", b" text/gemini", True, "badStatus", 20, True, "none", b"BODY!", True, "fin"))
+    # status tokens that are not two ASCII digits although int() reads them as numbers
+    for nm, tok in (("plus", b"+20"), ("underscore", b"2_0"), ("threedigits0", b"020"), ("fullwidth", "\uff12\uff10".encode()),
+                    ("arabic", "\u0662\u0660".encode()), ("tab", b"\t20"), ("lfafter", b"20\n")):
+        S.append(script("status-" + nm, tok + b" text/gemini", True, "badStatus", 20, True, "none", b"BODY!", True, "fin"))
     S.append(script("badutf8hdr", b"20 text/\xff\xfegemini", True, "badUtf8", 20, True, "none", b"BODY!", True, "fin"))
     for e in ("fin", "rst", "never"):
         S.append(script("nocrlf-%s" % e, b"20 text/gemini but no terminator " + b"x" * 3000, False, "ok", 20, True, "none",
